@@ -98,8 +98,8 @@ CHECKS.update({
 })
 
 CHECKS.update({
- "C15": ("proof", "Coq theorems over the Gallina mirror of LDAPFilter.from_string, for EVERY string (any code points, lone surrogates included) and every recursion budget: (1) the result is a filter or FilterSyntaxError - never another exception: every loop of the parser is shown to make progress (an accepted item consumes at least one octet), re.sub and the backtracking matcher on the generated escape pattern never exhaust their steps (general lemma for star-free patterns), split never returns an empty list, RecursionError is converted; (2) whenever a filter is returned, all its attribute descriptions and matching rules match the generated attribute pattern and its shape is expressible (non-empty and/or, well-formed substrings / extensible match), within the budget; (3) the text form of the returned filter parses back to the same filter (with C13). The clause 'RFC 4512-valid' is refuted for the library's own pattern by two concrete witnesses (the two known findings, pinned by passing tests). Mutated sentences, random text and deep nesting are run through implementation and extracted model on every run.",
-         "NOT covered by a theorem: that the offset/length reported in a FilterSyntaxError lie inside the input (checked by the oracle on every generated case). The str -> octets step models CPython's utf-8/surrogateescape encoder.",
+ "C15": ("proof", "Coq theorems over the Gallina mirror of LDAPFilter.from_string, for EVERY string (any code points, lone surrogates included) and every recursion budget: (1) the result is a filter or FilterSyntaxError - never another exception: every loop of the parser is shown to make progress (an accepted item consumes at least one octet), re.sub and the backtracking matcher on the generated escape pattern never exhaust their steps (general lemma for star-free patterns), split never returns an empty list, RecursionError is converted; (2) whenever a filter is returned, all its attribute descriptions and matching rules match the generated attribute pattern and its shape is expressible (non-empty and/or, well-formed substrings / extensible match), within the budget; (3) the text form of the returned filter parses back to the same filter (with C13); (4) the offset and length reported by a FilterSyntaxError lie inside the encoded filter (inside the string for an unencodable character). The clause 'RFC 4512-valid' is refuted for the library's own pattern by two concrete witnesses (the two known findings, pinned by passing tests). Mutated sentences, random text and deep nesting are run through implementation and extracted model on every run.",
+         "The str -> octets step models CPython's utf-8/surrogateescape encoder; offsets are octet offsets into the encoded filter as the implementation reports them.",
          "machine-checked proof in Coq (progress and soundness invariants over the parser loops, mutual induction on the recursion budget) + mutation testing of the parser + totality/validity oracle"),
 })
 
